@@ -26,6 +26,13 @@ AttrValue(v) ==
   ELSE v.p \o ":" \o v.l
 LexValue(v) == IF "s" \in DOMAIN v THEN v.s ELSE v.p \o ":" \o v.l
 
+\* An xsi:type attribute is a QName by definition: the serializer spells the stored {uri}local with a prefix it
+\* declares, so its value is compared in the VALUE space (canonical form Q(uri|local)), not lexically.
+XSI == "http://www.w3.org/2001/XMLSchema-instance"
+XsiType == <<XSI, "type">>
+IsXsiQ(a) == a[1] = XsiType /\ "p" \in DOMAIN a[2] /\ a[2].u # NONE
+QCanon(v) == "Q(" \o v.u \o "|" \o v.l \o ")"
+
 \* WildcardNode.bind for a captured element (var.is_wildcard, not nillable):
 \*   AnyElement [qname, text, tail, attrs, children]
 RECURSIVE WildParse(_)
@@ -35,14 +42,16 @@ WildParse(x) ==
   IN [qname |-> x.name,
       text  |-> IF t0 = NONE THEN "" ELSE t0,
       tail  |-> Normalize(x.tail),
-      attrs |-> FoldLeft(LAMBDA acc, a : Append(acc, <<a[1], AttrValue(a[2])>>), <<>>, x.attrs),
+      \* <<name, stored value, what is written back>>
+      attrs |-> FoldLeft(LAMBDA acc, a : Append(acc, <<a[1], AttrValue(a[2]),
+                                                       IF IsXsiQ(a) /\ AnyAttrPolicy = "expand" THEN QCanon(a[2]) ELSE AttrValue(a[2])>>), <<>>, x.attrs),
       children |-> kids]
 
 \* convert_any_element: what an AnyElement says when it is written back (text "" and
 \* tail NONE write nothing)
 RECURSIVE Written(_)
 Written(e) ==
-  [name |-> e.qname, attrs |-> e.attrs, text |-> e.text,
+  [name |-> e.qname, attrs |-> FoldLeft(LAMBDA acc, a : Append(acc, <<a[1], a[3]>>), <<>>, e.attrs), text |-> e.text,
    kids |-> FoldLeft(LAMBDA acc, k : Append(acc, Written(k)), <<>>, e.children),
    tail |-> IF e.tail = NONE THEN "" ELSE e.tail]
 
@@ -51,7 +60,7 @@ Written(e) ==
 RECURSIVE Reference(_)
 Reference(x) ==
   [name |-> x.name,
-   attrs |-> FoldLeft(LAMBDA acc, a : Append(acc, <<a[1], LexValue(a[2])>>), <<>>, x.attrs),
+   attrs |-> FoldLeft(LAMBDA acc, a : Append(acc, <<a[1], IF IsXsiQ(a) THEN QCanon(a[2]) ELSE LexValue(a[2])>>), <<>>, x.attrs),
    text |-> IF x.kids # <<>> /\ IsWs(x.text) THEN "" ELSE x.text,
    kids |-> FoldLeft(LAMBDA acc, k : Append(acc, Reference(k)), <<>>, x.kids),
    tail |-> IF IsWs(x.tail) THEN "" ELSE x.tail]
@@ -61,6 +70,6 @@ Faithful(x) == Written(WildParse(x)) = Reference(x)
 \* F18 (open): a QName-looking attribute value with a declared prefix is rewritten
 RECURSIVE HasQNameLikeAttr(_)
 HasQNameLikeAttr(x) ==
-  \/ \E i \in DOMAIN x.attrs : "p" \in DOMAIN x.attrs[i][2] /\ x.attrs[i][2].u # NONE
+  \/ \E i \in DOMAIN x.attrs : "p" \in DOMAIN x.attrs[i][2] /\ x.attrs[i][2].u # NONE /\ x.attrs[i][1] # XsiType
   \/ \E i \in DOMAIN x.kids : HasQNameLikeAttr(x.kids[i])
 =============================================================================
